@@ -4,6 +4,7 @@ import (
 	"fmt"
 	"go/token"
 	"os"
+	"sort"
 	"strings"
 
 	"golang.org/x/tools/go/ssa"
@@ -134,6 +135,9 @@ var extractorLoopSanctioned = []string{
 	"builtin.len(param0.extractors) <= (φ:int+1:int)",
 	"extractor/filesystem.fileSize(param0.fileAPI)#1 != nil:error",
 	"param0.maxFileSize < extractor/filesystem.fileSize(param0.fileAPI)#0",
+	// early exits of the loop: only the two size-limit decisions (they end the file for every extractor)
+	"exit: extractor/filesystem.fileSize(param0.fileAPI)#1 != nil:error",
+	"exit: param0.maxFileSize < extractor/filesystem.fileSize(param0.fileAPI)#0",
 }
 
 func extractorLoopRule(p *Prog, r *Report, e *engine, rule string) {
@@ -141,6 +145,13 @@ func extractorLoopRule(p *Prog, r *Report, e *engine, rule string) {
 	renderDepth, renderAllocs = 10, true
 	isDisp := func(in ssa.Instruction) bool { return in == ssa.Instruction(e.dispatchCall) }
 	got := loopSkips(e.handleFile, isDisp)
+	// early exits of the loop (break / return before the last extractor): they keep the file from
+	// every remaining extractor
+	if hdr := loopHeaderOf(e.dispatchCall.Block()); hdr != nil {
+		for _, x := range loopExitDecisions(hdr) {
+			got = append(got, "exit: "+x)
+		}
+	}
 	if os.Getenv("SCALINT_LEARN") != "" {
 		for _, g := range got {
 			fmt.Fprintf(os.Stderr, "LEARN-EXLOOP\t%q,\n", g)
@@ -168,4 +179,28 @@ func extractorLoopRule(p *Prog, r *Report, e *engine, rule string) {
 			r.Fail(rule, key+":extractor-loop:missing:"+short(w, 120), p.Pos(e.handleFile.Pos()), "the audited decision '"+w+"' is gone or was rewritten")
 		}
 	}
+}
+
+// loopExitDecisions: the branch decisions (rendered with polarity, conjunction chains merged) on
+// which control leaves the natural loop of hdr from inside its body — breaks and returns — not
+// counting the loop head's own "range exhausted" exit.
+func loopExitDecisions(hdr *ssa.BasicBlock) []string {
+	body := naturalLoop(hdr)
+	var out []string
+	for b := range body {
+		if b == hdr {
+			continue
+		}
+		ifi := blockIf(b)
+		if ifi == nil {
+			continue
+		}
+		for k, sc := range b.Succs {
+			if !body[sc] {
+				out = append(out, renderSkipDecision(b, k))
+			}
+		}
+	}
+	sort.Strings(out)
+	return out
 }
